@@ -142,6 +142,8 @@ def render(e, depth=0):
     k = e.get('k')
     if k == 'path':
         return e['p']
+    if k == 'lit' and 'v' not in e and 'e' in e:
+        return render(e['e'])          # literal pattern wrapper
     if k == 'lit':
         if e.get('t') == 'str':
             return '"%s"' % e['v'].replace('\\', '\\\\').replace('"', '\\"').replace('\n', '\\n')
